@@ -1532,10 +1532,7 @@ Proof.
   rewrite (inputs_preview_spec d Hnd) in Hin. destruct (existsb _ (f_params d)); [discriminate|].
   injection Hin as Hin. split; [symmetry; exact Hin|]. unfold in_sigs. rewrite <- Hin, map_map. reflexivity.
 Qed.
-(* ---- inputs_to_dataframe(n): rows over the same keys ------------------------------------- *)
-Definition cell (ks : list string) (vs : list val) (k : string) : val :=
-  match sassoc k (combine ks vs) with Some v => v | None => VNotData end.
-
+(* ---- inputs_to_dataframe(n): rows over the same key set ----------------------------------- *)
 Lemma supd_app_notin {B} k (v : B) done l : ~ In k (keys done) -> supd k v (done ++ l) = done ++ supd k v l.
 Proof.
   unfold supd, keys. induction done as [|[k' v'] r IH]; simpl; intro H; [reflexivity|].
@@ -1556,123 +1553,127 @@ Proof.
   - rewrite keys_app, <- List.app_assoc. exact H.
 Qed.
 
-(* a later row over the same keys extends every column by its cell *)
-Lemma add_row_later todo : forall done (vs : list val),
-  NoDup (keys done ++ keys todo) -> List.length vs = List.length todo ->
-  add_row false (done ++ todo) (combine (keys todo) vs) =
-    Ok (done ++ map (fun cv => (fst (fst cv), snd (fst cv) ++ [snd cv])) (combine todo vs)).
+Definition cellr (row : list (string * val)) (k : string) : val :=
+  match sassoc k row with Some v => v | None => VNotData end.
+Definition columns_of (ks : list string) (rows : list (list (string * val))) : list (string * list val) :=
+  map (fun k => (k, map (fun row => cellr row k) rows)) ks.
+
+(* a later row whose keys are among the columns extends exactly the columns it names *)
+Lemma add_row_extend row : forall cols,
+  NoDup (keys cols) -> NoDup (keys row) -> (forall k, In k (keys row) -> In k (keys cols)) ->
+  add_row false cols row =
+    Ok (map (fun kc => (fst kc, match sassoc (fst kc) row with Some v => snd kc ++ [v] | None => snd kc end)) cols).
 Proof.
-  induction todo as [|[k c] r IH]; intros done vs H Hl; destruct vs as [|v vs]; simpl in *; try discriminate.
-  - reflexivity.
-  - assert (Hn : ~ In k (keys done)).
-    { intro HI. apply NoDup_remove_2 in H. apply H. apply in_or_app. auto. }
-    assert (Hs : sassoc k (done ++ (k, c) :: r) = Some c).
-    { rewrite sassoc_app. apply sassoc_none_notin in Hn. rewrite Hn. unfold sassoc. simpl.
-      rewrite String.eqb_refl. reflexivity. }
-    rewrite Hs. rewrite (supd_app_notin _ _ _ _ Hn).
-    assert (Hu : supd k (c ++ [v]) ((k, c) :: r) = (k, c ++ [v]) :: r).
-    { unfold supd. simpl. rewrite String.eqb_refl. reflexivity. }
-    rewrite Hu. change (done ++ (k, c ++ [v]) :: r) with (done ++ [(k, c ++ [v])] ++ r).
-    rewrite List.app_assoc. rewrite IH.
-    + rewrite <- List.app_assoc. reflexivity.
-    + rewrite keys_app. simpl. rewrite <- List.app_assoc. exact H.
-    + lia.
+  induction row as [|[k v] r IH]; intros cols Hnc Hnr Hin; simpl.
+  - f_equal. rewrite <- (map_id cols) at 1. apply map_ext. intros [a b]. reflexivity.
+  - inversion Hnr as [|? ? Hk Hr]; subst.
+    destruct (sassoc k cols) as [c|] eqn:Es.
+    2:{ apply sassoc_none_notin in Es. exfalso. apply Es. apply Hin. simpl. auto. }
+    assert (Hupd : supd k (c ++ [v]) cols =
+              map (fun kc => if String.eqb (fst kc) k then (fst kc, snd kc ++ [v]) else kc) cols).
+    { clear IH Hin. unfold supd, sassoc, keys in *. induction cols as [|[k' c'] t IHt]; simpl in *; [discriminate|].
+      inversion Hnc as [|? ? Hn Ht]; subst. rewrite String.eqb_sym.
+      destruct (String.eqb k' k) eqn:E.
+      - apply String.eqb_eq in E. subst k'. rewrite String.eqb_refl in Es. injection Es as <-.
+        f_equal. rewrite <- (map_id t) at 1. apply map_ext_in. intros [a b] Hab. simpl.
+        destruct (String.eqb a k) eqn:E'; [|reflexivity]. apply String.eqb_eq in E'. subst a.
+        exfalso. apply Hn. apply (in_map fst) in Hab. exact Hab.
+      - rewrite String.eqb_sym, E in Es. f_equal. apply IHt; assumption. }
+    rewrite Hupd. rewrite IH.
+    + f_equal. rewrite map_map. apply map_ext. intros [a b]. simpl.
+      unfold sassoc at 2. simpl. fold (sassoc a r).
+      destruct (String.eqb a k) eqn:E; simpl.
+      * apply String.eqb_eq in E. subst a.
+        assert (Hn : sassoc k r = None) by (apply sassoc_none_notin; exact Hk). rewrite Hn. reflexivity.
+      * reflexivity.
+    + unfold keys. rewrite map_map.
+      replace (map (fun x => fst (if String.eqb (fst x) k then (fst x, snd x ++ [v]) else x)) cols) with (map fst cols);
+        [exact Hnc|]. apply map_ext. intros [a b]. simpl. destruct (String.eqb a k); reflexivity.
+    + exact Hr.
+    + intros k' Hk'. unfold keys. rewrite map_map.
+      replace (map (fun x => fst (if String.eqb (fst x) k then (fst x, snd x ++ [v]) else x)) cols) with (map fst cols);
+        [apply Hin; simpl; auto|]. apply map_ext. intros [a b]. simpl. destruct (String.eqb a k); reflexivity.
 Qed.
 
-Definition columns (ks : list string) (table : list (list val)) : list (string * list val) :=
-  map (fun k => (k, map (fun vs => cell ks vs k) table)) ks.
+(* rows are well formed when each has the key set of the first one (python dict keys are unique) *)
+Definition rows_ok (ks : list string) (rows : list (list (string * val))) : Prop :=
+  Forall (fun row => NoDup (keys row) /\ forall k, In k (keys row) <-> In k ks) rows.
 
-Lemma cells_of_row ks : forall vs, NoDup ks -> List.length vs = List.length ks ->
-  map (fun k => cell ks vs k) ks = vs.
-Proof.
-  intros vs Hnd Hl. pose proof (sassoc_combine_all ks vs Hnd (eq_sym Hl)) as H.
-  unfold cell. revert H. generalize (combine ks vs). intros m H.
-  revert vs Hl H. induction ks as [|k r IH]; intros [|v vs] Hl H; simpl in *; try discriminate; [reflexivity|].
-  injection H as H1 H2. rewrite H1. f_equal. inversion Hnd; subst. apply IH; auto.
-Qed.
-
-Lemma zip_extend (l : list string) (g : string -> list val) (h : string -> val) :
-  map (fun cv => (fst (fst cv), snd (fst cv) ++ [snd cv])) (combine (map (fun k => (k, g k)) l) (map h l))
-  = map (fun k => (k, g k ++ [h k])) l.
-Proof. induction l as [|k r IH]; simpl; [reflexivity|]. f_equal. exact IH. Qed.
-
-Lemma frame_cols_uniform ks table : NoDup ks ->
-  Forall (fun vs => List.length vs = List.length ks) table ->
+Lemma frame_cols_rows ks rows : NoDup ks -> rows_ok ks rows ->
   forall done i, done <> [] -> i = List.length done ->
-  Forall (fun vs => List.length vs = List.length ks) done ->
-  frame_cols i (columns ks done) (map (fun vs => VMap "dict" (combine ks vs)) table) =
-    Ok (columns ks (done ++ table)).
+  frame_cols i (columns_of ks done) (map (VMap "dict") rows) = Ok (columns_of ks (done ++ rows)).
 Proof.
-  intros Hnd Ht. induction Ht as [|vs table Hvs Ht IH]; intros done i Hne Hi Hd; simpl.
+  intros Hnd Hr. induction Hr as [|row rows [Hnr Hkeys] Hr IH]; intros done i Hne Hi; simpl.
   - rewrite List.app_nil_r. reflexivity.
-  - assert (Ei : Nat.eqb i 0 = false).
-    { apply Nat.eqb_neq. destruct done; [contradiction|]. simpl in Hi. lia. }
+  - assert (Ei : Nat.eqb i 0 = false) by (apply Nat.eqb_neq; destruct done; [contradiction | simpl in Hi; lia]).
     rewrite Ei.
-    assert (Hk : keys (columns ks done) = ks).
-    { unfold keys, columns. rewrite map_map. simpl. apply map_id. }
-    pose proof (add_row_later (columns ks done) [] vs) as Hadd. simpl in Hadd.
-    rewrite Hk in Hadd. rewrite Hadd; [|exact Hnd|unfold columns; rewrite map_length; exact Hvs].
-    assert (Hnext : map (fun cv => (fst (fst cv), snd (fst cv) ++ [snd cv])) (combine (columns ks done) vs)
-                    = columns ks (done ++ [vs])).
-    { replace (combine (columns ks done) vs)
-        with (combine (columns ks done) (map (fun k => cell ks vs k) ks))
-        by (rewrite (cells_of_row ks vs Hnd Hvs); reflexivity).
-      unfold columns. rewrite zip_extend. apply map_ext. intro k. rewrite map_app. reflexivity. }
-    rewrite Hnext. rewrite IH.
+    assert (Hk : keys (columns_of ks done) = ks).
+    { unfold keys, columns_of. rewrite map_map. simpl. apply map_id. }
+    rewrite add_row_extend; [|rewrite Hk; exact Hnd|exact Hnr|intros k Hk'; rewrite Hk; apply Hkeys; exact Hk'].
+    assert (Hnext : map (fun kc => (fst kc, match sassoc (fst kc) row with
+                                            | Some v => snd kc ++ [v] | None => snd kc end))
+                        (columns_of ks done) = columns_of ks (done ++ [row])).
+    { unfold columns_of. rewrite map_map. apply map_ext_in. intros k Hkin. simpl. rewrite map_app. simpl.
+      unfold cellr. destruct (sassoc k row) eqn:Es; [reflexivity|].
+      apply sassoc_none_notin in Es. exfalso. apply Es. apply Hkeys. exact Hkin. }
+    rewrite Hnext, IH.
     + rewrite <- List.app_assoc. reflexivity.
     + destruct done; discriminate.
     + rewrite List.app_length. simpl. lia.
-    + apply Forall_app. split; [exact Hd | repeat constructor; exact Hvs].
 Qed.
 
-Lemma zip_first (l : list string) (h : string -> val) :
-  map (fun kv => (fst kv, [snd kv])) (combine l (map h l)) = map (fun k => (k, [h k])) l.
-Proof. induction l as [|k r IH]; simpl; [reflexivity|]. f_equal. exact IH. Qed.
-
-Definition row_of (ks : list string) (vs : list val) : val := VMap "dict" (combine ks vs).
-Definition frame_of (ks : list string) (table : list (list val)) : val :=
-  VMap "DataFrame" (match table with
+Definition frame_of (rows : list (list (string * val))) : val :=
+  VMap "DataFrame" (match rows with
                     | [] => []
-                    | _ => map (fun kc => (fst kc, VList (snd kc))) (columns ks table)
+                    | row0 :: _ => map (fun kc => (fst kc, VList (snd kc))) (columns_of (keys row0) rows)
                     end).
 
-(* rows over the same keys (same order): the table is the transposition, column by column *)
-Theorem to_frame_uniform ks table : NoDup ks ->
-  Forall (fun vs => List.length vs = List.length ks) table ->
-  to_frame (map (row_of ks) table) = Ok (frame_of ks table).
+Lemma first_row_columns row : NoDup (keys row) ->
+  map (fun kv => (fst kv, [snd kv])) row = columns_of (keys row) [row].
 Proof.
-  intros Hnd Ht. unfold to_frame, frame_of. destruct table as [|vs0 rest]; [reflexivity|].
-  inversion Ht as [|? ? Hv0 Hrest]; subst. simpl. unfold row_of at 1.
-  rewrite add_row_first; [|simpl; rewrite keys_combine_eq; [exact Hnd | exact Hv0]]. simpl.
-  assert (H1 : map (fun kv => (fst kv, [snd kv])) (combine ks vs0) = columns ks [vs0]).
-  { replace (combine ks vs0) with (combine ks (map (fun k => cell ks vs0 k) ks))
-      by (rewrite (cells_of_row ks vs0 Hnd Hv0); reflexivity).
-    rewrite zip_first. reflexivity. }
-  rewrite H1.
-  pose proof (frame_cols_uniform ks rest Hnd Hrest [vs0] 1) as Hf.
-  unfold row_of. rewrite Hf; [|discriminate|reflexivity|repeat constructor; exact Hv0].
-  assert (Hsame : same_lengths (columns ks ([vs0] ++ rest)) = true).
-  { unfold same_lengths, columns. destruct ks as [|k r]; [reflexivity|]. simpl.
+  intro Hnd. unfold columns_of, keys. rewrite map_map. apply map_ext_in. intros [k v] Hin. simpl.
+  unfold cellr. 
+  assert (Hs : sassoc k row = Some v).
+  { clear -Hnd Hin. unfold sassoc, keys in *. induction row as [|[k' v'] r IH]; [destruct Hin|]. simpl.
+    inversion Hnd as [|? ? Hn Hr]; subst. destruct Hin as [E|Hin].
+    - injection E as -> ->. rewrite String.eqb_refl. reflexivity.
+    - destruct (String.eqb k k') eqn:E; [|apply IH; assumption].
+      apply String.eqb_eq in E. subst. exfalso. apply Hn. apply (in_map fst) in Hin. exact Hin. }
+  rewrite Hs. reflexivity.
+Qed.
+
+(* the table is the transposition: column k (in the key order of the first row) = the k-cells
+   of the rows, in row order *)
+Theorem to_frame_rows rows :
+  match rows with [] => True | row0 :: _ => NoDup (keys row0) /\ rows_ok (keys row0) rows end ->
+  to_frame (map (VMap "dict") rows) = Ok (frame_of rows).
+Proof.
+  unfold to_frame, frame_of. destruct rows as [|row0 rest]; [reflexivity|]. intros [Hnd Hok].
+  inversion Hok as [|? ? _ Hrest]; subst. simpl.
+  rewrite add_row_first; [|simpl; exact Hnd]. simpl. rewrite (first_row_columns row0 Hnd).
+  rewrite (frame_cols_rows (keys row0) rest Hnd Hrest [row0] 1); [|discriminate|reflexivity].
+  assert (Hsame : same_lengths (columns_of (keys row0) ([row0] ++ rest)) = true).
+  { unfold same_lengths, columns_of. destruct (keys row0) as [|k r]; [reflexivity|]. simpl.
     apply forallb_forall. intros kc Hkc. apply in_map_iff in Hkc. destruct Hkc as [k' [<- _]]. simpl.
     rewrite !map_length. apply Nat.eqb_refl. }
   rewrite Hsame. reflexivity.
 Qed.
 
 (* ... as what InputsToDataframe computes from its row inputs and stores in `df` *)
-Theorem frame_on_run sem ins ks table : NoDup ks ->
-  Forall (fun vs => List.length vs = List.length ks) table ->
-  map c_value ins = map (row_of ks) table ->
-  on_run sem RunToFrame ins = Ok (frame_of ks table).
+Theorem frame_on_run sem ins rows :
+  match rows with [] => True | row0 :: _ => NoDup (keys row0) /\ rows_ok (keys row0) rows end ->
+  map c_value ins = map (VMap "dict") rows ->
+  on_run sem RunToFrame ins = Ok (frame_of rows).
 Proof.
-  intros Hnd Ht Hv. unfold on_run.
+  intros Hok Hv. unfold on_run.
   assert (E : map snd (value_dict ins) = map c_value ins) by (unfold value_dict; rewrite map_map; reflexivity).
-  rewrite E, Hv. apply to_frame_uniform; assumption.
+  rewrite E, Hv. apply to_frame_rows. exact Hok.
 Qed.
 
-Theorem frame_store c ks table :
+Theorem frame_store c rows :
   chan_sig c = ("df", Some (HAtoms [ACls "DataFrame"])) ->
-  process_run_result (KFromMany "df") [c] (frame_of ks table) =
-    (expected_out [("df", Some (HAtoms [ACls "DataFrame"]))] (frame_of ks table), Ok (frame_of ks table)).
+  process_run_result (KFromMany "df") [c] (frame_of rows) =
+    (expected_out [("df", Some (HAtoms [ACls "DataFrame"]))] (frame_of rows), Ok (frame_of rows)).
 Proof. intro Hs. apply process_from_many; [exact Hs | reflexivity]. Qed.
 
 (* ---- a hint rejection in the middle of the assignment loop (as the code is) ----------------- *)
